@@ -5,7 +5,8 @@ IDS = ['a', 'b', 'c', 'd']
 
 
 def rand_const(rng):
-    return rng.choice([0, 1, 2, 'a', 'b', 'k', None, [1, 'a'], [], ['a', 'b'], '', False, -1, -2, 'x0', 'x0', 'x1'])   # incl. the NAMES of inputs
+    return rng.choice([0, 1, 2, 'a', 'b', 'k', None, [1, 'a'], [], ['a', 'b'], '', False, -1, -2, 'x0', 'x0', 'x1',
+                       {'app': ['$path', ['a'], [], []]}, {'app': ['$bytes', ['a'], [], []]}])   # incl. the NAMES of inputs; a path / bytes spelling 'a'
 
 
 def gen_graph(rng: random.Random, max_nodes=18, malformed=0.03, kinds=None, unique_fns=False):
@@ -137,6 +138,10 @@ def gen_steps(rng, case, n_calls=None):
     for _ in range(n_calls):
         out = rng.choice(outs[-2:]) if rng.random() < 0.8 else rng.choice(outs)
         env = {f'x{i}': rng.choice(IDS + IDS + ['z']) if rng.random() < 0.88 else rng.choice([0, 1, 2, None, '', -1, -2, 2305843009213693950, []]) for i in range(n_in)}
+        for k in env:
+            # an id given as a path or as bytes: not the string that spells it (another key, another value)
+            if isinstance(env[k], str) and env[k] and rng.random() < 0.08:
+                env[k] = {'app': [rng.choice(['$path', '$bytes']), [env[k]], [], []]}
         r = rng.random()
         if r < 0.75:
             st = {'t': 'call', 'out': out, 'env': env}
